@@ -1046,3 +1046,198 @@ def ops_from_text(t):
         else:
             ops.append(tuple(op))
     return ops
+
+
+# ------------------------------------------------------------------------------------------------
+# the check (shared by C04.py and C05.py; `pid` selects which verdicts count)
+# ------------------------------------------------------------------------------------------------
+KNOWN_ID = "C04-resend-lost-on-reconnect"
+KNOWN_ENTRY = {
+    "property": "C04", "id": KNOWN_ID, "status": "known", "class": "lost-after-requeue",
+    "what": ("stanzas re-queued by _sm_queue_resend (after <resumed/> or <enabled/>) exist only in the send queue; if the "
+             "connection is lost before they are written again, the next connect (_conn_reset) frees the send queue and "
+             "these written-but-unacknowledged stanzas are lost"),
+    "witness": "corpus/C04.txt: known-requeue-loss",
+}
+
+
+def load_corpus(pid):
+    import os
+    import vlib
+    p = os.path.join(vlib.ROOT, "corpus", "%s.txt" % pid)
+    out = []
+    if os.path.exists(p):
+        for l in open(p):
+            l = l.strip()
+            if l and not l.startswith("#"):
+                drained = l.startswith("D ")
+                out.append((ops_from_text(l[2:] if l[:2] in ("D ", "N ") else l), drained))
+    return out
+
+
+def build_exes(pid):
+    import time
+    import vlib
+    last = None
+    for attempt in range(4):
+        try:
+            exe = vlib.build_simworld()
+            mexe = vlib.build_ocaml_model(pid)
+            return exe, mexe
+        except vlib.BuildError as e:       # another check may be pruning the shared build directory: retry
+            last = e
+            if "does not compile" in str(e) or "OCaml" in str(e) or "extracted model" in str(e):
+                raise
+            time.sleep(1.5)
+    raise last
+
+
+def evaluate(pid, ops, impl, drained):
+    """(list of (class, what)) the property `pid` fails with on this finished scenario, stats."""
+    fails = []
+    if impl.startswith("CRASH"):
+        return [("crash", "the implementation crashed: " + impl[:200])], {}, None
+    res = judge(ops, impl, drained)
+    v, sim = res
+    mine = v.c04 if pid == "C04" else v.c05
+    fails += list(mine)
+    if pid == "C04":
+        fails += [("lost-after-requeue", w) for (_k, w) in v.known]
+    return fails, v.stats, v
+
+
+def run_check(chk, pid):
+    import vlib
+    thorough = chk.tier == "thorough"
+    chk.rule = ("simworld scenarios: fixed negotiation to an SM session, then (a) 'honest' stream: random user sends, partial-write "
+                "schedules, inbound stanzas / other elements / <r/>, acknowledgements and resume outcomes computed by an independent "
+                "XEP-0198 server simulator from what the client really wrote (lock-step resolution), 1-4 reconnects with "
+                "resumed / failed(h) / failed / feature-not-implemented / new session / no SM offered / loss during negotiation, final "
+                "drain; (b) 'adversarial' stream: every element kind with any h (below/at/above the queue head, > 2^32, unparsable, "
+                "missing) at any time, write errors, stream end, losses everywhere; (c) corpus. Every scenario: implementation trace "
+                "(wire bytes per connection, every SM-callback blob, dumpq, connect/disconnect events) == model trace; streams (a),(c): "
+                "server simulator's verdict. distinct & non-trivial = distinct op/answer sequence containing at least one ack, resume "
+                "outcome or second session")
+    chk.assumptions = [
+        "everything before the post-authentication <stream:features/> is the fixed prefix of the scenarios (PLAIN, no TLS); the model starts there",
+        "stanza-aligned read chunks (expat reparse deferral is C10's subject); the virtual clock never moves (no timed handler fires)",
+        "the server simulator (checks/smcommon.py ServerSim) is the reference for 'what a XEP-0198 server counts and reports'",
+        "theorems with the `all_honest` hypothesis assume the server answers a request only after it was written completely and reports "
+        "<resumed h> with acked <= h <= written < 2^32 (Spec/SmSpec.v honest)",
+    ]
+    if pid == "C04" and not any(k.get("id") == KNOWN_ID for k in chk.known):
+        chk.known.append(dict(KNOWN_ENTRY))      # proposed entry, see the builder's report (known_findings.json is not edited here)
+    chk.known_preds[KNOWN_ID] = lambda rec: rec.get("class") == "lost-after-requeue"
+    chk.prove()
+    try:
+        exe, mexe = build_exes(pid)
+    except vlib.BuildError as e:
+        if "extracted model" in str(e) or "OCaml" in str(e):
+            chk.broken.append({"kind": "extract", "name": "Extract_" + pid, "detail": str(e)[:500]})
+            exe, mexe = vlib.build_simworld(), None
+        else:
+            raise
+    rng = chk.rng
+    n_honest = 1500 if thorough else 160
+    n_adv = 12000 if thorough else 1200
+    corpus = load_corpus(pid)
+    honest = [gen_honest(rng) for _ in range(n_honest)]
+    honest, rounds, runs = resolve_all(honest, lambda lines: vlib.run_parallel(exe, lines))
+    adv = [gen_adversarial(rng, rng.randrange(8, 70)) for _ in range(n_adv)]
+    cases = [(o, "corpus", d) for (o, d) in corpus] + [(o, "honest", True) for o in honest] + [(o, "adversarial", False) for o in adv]
+    impl = vlib.run_parallel(exe, [sim_line(o) for o, _, _ in cases])
+    model = vlib.run_parallel(mexe, [model_line(o) for o, _, _ in cases]) if mexe else None
+    totals = {}
+    seen_fail = set()
+    for idx, (ops, stream, drained) in enumerate(cases):
+        chk.evaluations += 1
+        chk.count(stream)
+        text = ops_to_text(ops)
+        ci = canon_impl(ops, impl[idx])
+        if model is not None:
+            chk.traces_validated += 1
+            cm = canon_model(ops, model[idx])
+            if ci is None:
+                chk.disagree(stream, text, impl[idx][:300], "(model does not crash)")
+            elif ci != cm:
+                k = next((j for j, (a, b) in enumerate(zip(ci, cm + [[]] * len(ci))) if a != b), -1)
+                chk.disagree(stream, text, "op %d %s: %s" % (k, ops[k][0], " ".join(ci[k])[:400]),
+                             "op %d: %s" % (k, " ".join(cm[k])[:400] if k < len(cm) else "-"))
+        if stream == "adversarial":
+            if impl[idx].startswith("CRASH"):
+                chk.fail(text, "the implementation crashed: " + impl[idx][:200], stream=stream, extra={"class": "crash"})
+            continue
+        fails, stats, v = evaluate(pid, ops, impl[idx], drained)
+        for k2, n in stats.items():
+            totals[k2] = totals.get(k2, 0) + n
+        if v is not None and v.dishonest:
+            chk.count(stream + "-server-went-dishonest")
+        if stats.get("acks") or stats.get("resumed") or stats.get("failed") or stats.get("enabled", 0) > 1:
+            chk.nontrivial.add(scenario_key(ops))
+        for cls, what in fails:
+            if (cls,) in seen_fail and len(chk.failures) > 12:
+                continue
+            seen_fail.add((cls,))
+            case = text
+            if len([f for f in chk.failures if f.get("class") == cls]) == 0 and cls != "lost-after-requeue":
+                case = ops_to_text(shrink(pid, ops, drained, cls, exe))
+            chk.fail(case, "%s: %s" % (cls, what), stream=stream, extra={"class": cls})
+        if idx % 211 == 0:
+            chk.sample({"stream": stream, "ops": text[:600], "verdict": "ok" if not fails else fails[0][1][:200]})
+    chk.extra["server_simulator_events"] = totals
+    chk.extra["lockstep"] = {"rounds": rounds, "prefix_runs": runs}
+
+
+def shrink(pid, ops, drained, cls, exe):
+    import vlib
+
+    def still(cand):
+        if first_sym(cand) is not None:
+            return False
+        try:
+            out = vlib.run_lines(exe, [sim_line(cand)])[0]
+            fails, _, v = evaluate(pid, cand, out, drained)
+        except Exception:
+            return False
+        return any(c == cls for c, _ in fails)
+    try:
+        return vlib.shrink_list(ops, still, max_steps=120)
+    except Exception:
+        return ops
+
+
+def replay_check(pid, path):
+    import json
+    import vlib
+    rec = json.load(open(path))
+    f = rec.get("failure") or (rec.get("disagreements") or [{}])[0]
+    case = f.get("case")
+    if not case:
+        print("replay file names no concrete input: %s" % json.dumps(rec.get("broken_obligations"))[:800])
+        return 1
+    ops = ops_from_text(case)
+    exe = vlib.build_simworld()
+    impl = vlib.run_lines(exe, [sim_line(ops)])[0]
+    try:
+        model = vlib.run_lines(vlib.build_ocaml_model(pid), [model_line(ops)])[0]
+    except vlib.BuildError:
+        model = None
+    ci = canon_impl(ops, impl)
+    cm = canon_model(ops, model) if model is not None else None
+    print("scenario (%d ops):" % len(ops))
+    for k, op in enumerate(ops):
+        a = ci[k] if ci and k < len(ci) else ["(crash)"]
+        b = cm[k] if cm and k < len(cm) else ["-"]
+        print(" %s %2d %-60s" % ("  " if a == b or cm is None else "!=", k, str(op)[:60]))
+        if a != b and cm is not None:
+            print("        impl : %s\n        model: %s" % (" ".join(a)[:500], " ".join(b)[:500]))
+    fails, stats, v = evaluate(pid, ops, impl, True)
+    print("implementation: %s" % ("CRASH " + impl[:200] if impl.startswith("CRASH") else "ran"))
+    print("server simulator: %s" % (stats,))
+    if v is not None and v.dishonest:
+        print("the scripted server is not a XEP-0198 server here: %s" % v.dishonest[:3])
+    for cls, what in fails:
+        print("property %s fails: %s: %s" % (pid, cls, what))
+    bad = bool(fails) or (cm is not None and ci != cm)
+    print("verdict: %s" % ("FAILS" if bad else "holds"))
+    return 1 if bad else 0
